@@ -219,7 +219,7 @@ def scalar_text(v, q='plain', as_key=False):
                 got2 = yaml.safe_load('k: ' + txt + '\n')
                 ok = isinstance(got1, list) and len(got1) == 2 and _same(got1[0], v) and \
                     isinstance(got2, dict) and _same(got2.get('k'), v)
-        except yaml.YAMLError:
+        except Exception:      # noqa: PyYAML raises ValueError for e.g. the plain scalar 0b_ - such a text must be quoted
             ok = False
         if ok:
             if len(_scalar_cache) < 500000:
